@@ -284,3 +284,154 @@ pub fn run_witness(f: &Value) -> Option<(String, Vec<Panic>)> {
     let (stage, panics) = run_one(inp);
     Some((format!("from_contract_class on {src} with {:?}: {stage}", var), panics))
 }
+
+// ------------------------------------------------------------------------------------------------
+// JSON level: the class file itself with numbers / strings / shapes at their boundaries
+// ------------------------------------------------------------------------------------------------
+const JSON_NUMBERS: &[&str] = &[
+    "32767", "32768", "65535", "65536", "2147483647", "2147483648", "4294967295", "4294967296",
+    "9223372036854775807", "9223372036854775808", "18446744073709551615", "18446744073709551616",
+    "340282366920938463463374607431768211456", "-1", "-9223372036854775809", "1.5", "1e400", "\"7\"", "null", "[]",
+    "{}", "true",
+];
+
+fn json_variants(root: &Value) -> Vec<(String, String)> {
+    let mut out: Vec<(String, String)> = vec![];
+    let big_hex = format!("\"0x1{}\"", "0".repeat(5000));
+    let max_hex = format!("\"0x{}\"", "f".repeat(64));
+    let strings: Vec<String> = vec![
+        "\"0x0\"".into(), "\"0x\"".into(), "\"\"".into(), "\"0xzz\"".into(), max_hex, big_hex, "7".into(), "null".into(),
+        "\"-0x1\"".into(), "\"0X1\"".into(),
+        "\"0x800000000000011000000000000000000000000000000000000000000000001\"".into(),
+    ];
+    for table in ["EXTERNAL", "L1_HANDLER", "CONSTRUCTOR"] {
+        let n = root["entry_points_by_type"][table].as_array().map(|a| a.len()).unwrap_or(0);
+        for k in [0usize, n.saturating_sub(1)] {
+            if k >= n {
+                continue;
+            }
+            for x in JSON_NUMBERS {
+                out.push((format!("/entry_points_by_type/{table}/{k}/function_idx"), x.to_string()));
+            }
+            for x in &strings {
+                out.push((format!("/entry_points_by_type/{table}/{k}/selector"), x.clone()));
+            }
+        }
+        for x in ["[]", "null", "{}", "[null]", "[{}]", "7"] {
+            out.push((format!("/entry_points_by_type/{table}"), x.to_string()));
+        }
+    }
+    let np = root["sierra_program"].as_array().map(|a| a.len()).unwrap_or(0);
+    for k in [0usize, 1, 5, 6, 7, 8, np.saturating_sub(1)] {
+        if k < np {
+            for x in &strings {
+                out.push((format!("/sierra_program/{k}"), x.clone()));
+            }
+        }
+    }
+    let deep = format!("{}{}", "[".repeat(5000), "]".repeat(5000));
+    for x in ["[]", "null", "{}", "\"0x1\"", "[[]]", "7"] {
+        out.push(("/sierra_program".into(), x.to_string()));
+    }
+    for x in ["1", "null", "\"\"", "[]"] {
+        out.push(("/contract_class_version".into(), x.to_string()));
+    }
+    for x in ["null", "{}", "[]", "7"] {
+        out.push(("/entry_points_by_type".into(), x.to_string()));
+    }
+    for x in ["null", "[]", "{}", "\"x\"", deep.as_str(), "[{\"type\":\"function\"}]", "[7]"] {
+        out.push(("/abi".into(), x.to_string()));
+    }
+    for field in ["type_names", "libfunc_names", "user_func_names"] {
+        for id in ["18446744073709551615", "18446744073709551616", "-1", "0", "\"0\"", "1.5"] {
+            out.push((
+                "/sierra_program_debug_info".into(),
+                format!("{{\"type_names\":[],\"libfunc_names\":[],\"user_func_names\":[],\"{field}\":[[{id},\"a\"],[{id},\"b\"]]}}")
+                    .replacen(&format!("\"{field}\":[],"), "", 1),
+            ));
+        }
+    }
+    for x in ["null", "{}", "[]", "7", "{\"type_names\":7}"] {
+        out.push(("/sierra_program_debug_info".into(), x.to_string()));
+    }
+    out
+}
+
+fn json_with(root: &Value, pointer: &str, raw: &str) -> Option<String> {
+    let mut v = root.clone();
+    *v.pointer_mut(pointer)? = Value::String("@@H14@@".into());
+    Some(serde_json::to_string(&v).ok()?.replacen("\"@@H14@@\"", raw, 1))
+}
+
+fn run_json(text: &str, limit: usize) -> (String, Vec<Panic>) {
+    let mut panics = vec![];
+    let cc: ContractClass = match guarded("serde_json::from_str::<ContractClass>", || serde_json::from_str::<ContractClass>(text)) {
+        Ok(Ok(c)) => c,
+        Ok(Err(_)) => return ("json:rejected".into(), panics),
+        Err(p) => {
+            panics.push(p);
+            return ("panic".into(), panics);
+        }
+    };
+    let ex = match guarded("ContractClass::extract_sierra_program(debug info)", || cc.extract_sierra_program(true)) {
+        Ok(Ok(e)) => e,
+        Ok(Err(_)) => return ("json:parsed,extract-rejected".into(), panics),
+        Err(p) => {
+            panics.push(p);
+            return ("panic".into(), panics);
+        }
+    };
+    if ex.program.statements.len() > limit {
+        return ("json:parsed,extracted".into(), panics);
+    }
+    let sv = ex.sierra_version;
+    let (stage, p2) = run_one(Input { cc, program: ex.program, sv, max: usize::MAX, pythonic: false });
+    panics.extend(p2);
+    (format!("json:parsed,{stage}"), panics)
+}
+
+pub fn run_jsn_job(job: &Value) {
+    let src = job["src"].as_str().unwrap_or("");
+    let thorough = job["tier"].as_str() == Some("thorough");
+    let w = Window::of(job);
+    let Ok(text) = std::fs::read_to_string(src) else { return };
+    let Ok(root) = serde_json::from_str::<Value>(&text) else { return };
+    let name0 = std::path::Path::new(src)
+        .file_name()
+        .map(|s| s.to_string_lossy().replace(".contract_class.json", ""))
+        .unwrap_or_default();
+    let limit = if thorough { 6000 } else { 1200 };
+    let mut seen = std::collections::BTreeSet::new();
+    for (i, (pointer, raw)) in json_variants(&root).iter().enumerate() {
+        if !w.runs(i) {
+            continue;
+        }
+        let shown: String = raw.chars().take(48).collect();
+        let name = format!("{name0}~json{pointer}={shown}");
+        emit_begin(i, &name);
+        let t = Instant::now();
+        let Some(doc) = json_with(&root, pointer, raw) else {
+            emit_end(&json!({"name": name, "kind": "jsn", "stage": "harness-skip"}));
+            continue;
+        };
+        let (stage, panics) = run_json(&doc, limit);
+        let mut pj = panics_json(&panics);
+        for (k, p) in panics.iter().enumerate() {
+            if seen.insert(p.loc.clone()) {
+                pj[k]["witness"] = json!({"entry": "class-json", "class": src, "pointer": pointer, "raw": raw, "size": 1});
+            }
+        }
+        emit_end(&json!({
+            "name": name, "kind": "jsn", "stage": if panics.is_empty() { stage.clone() } else { "panic".to_string() }, "panics": pj,
+            "ms": t.elapsed().as_millis() as u64, "hash": hash_of(&(&name0, pointer, raw)),
+            "nontrivial": stage.starts_with("json:parsed"), "mclass": format!("json:{}", pointer.split('/').nth(1).unwrap_or("")),
+        }));
+    }
+}
+
+pub fn run_json_witness(f: &Value) -> Option<(String, Vec<Panic>)> {
+    let text = std::fs::read_to_string(f["class"].as_str()?).ok()?;
+    let root: Value = serde_json::from_str(&text).ok()?;
+    let doc = json_with(&root, f["pointer"].as_str()?, f["raw"].as_str()?)?;
+    Some(run_json(&doc, 100000))
+}
